@@ -31,9 +31,9 @@ ASSUMPTIONS = [
     "HyperOptimizer trials are not in the catalogue: its 'greedy' method jitters sizes with the global generator by design and the statement does not list it",
     "kahypar is seeded through its own context (setSeed)",
 ]
-REQUIRED_MONITORS = ["calls_compared", "runs", "hashseeds", "calls_steered_by_seed"] + [
+REQUIRED_MONITORS = ["repeat_calls_compared", "calls_compared", "runs", "hashseeds", "calls_steered_by_seed"] + [
     "kind:" + k for k in ("rgo", "rg_track", "random_opt", "method", "labels_partition", "kahypar_membership", "slice", "slicefinder", "get_subtree",
-                          "subtree_reconfigure", "forest", "anneal", "temper", "unslice_rand", "gen", "arrays", "size_dict")
+                          "subtree_reconfigure", "forest", "anneal", "temper", "unslice_rand", "gen", "arrays", "size_dict", "repeat_after_history")
 ]
 SHARD_TIMEOUT = {"quick": 500, "thorough": 3600}
 
@@ -85,6 +85,11 @@ def catalogue(rng):
         add(f"anneal_sliced_{mode}", kind="anneal", kw={"tsteps": 3, "numiter": 2, "tstart": 20.0, "tfinal": 5.0, "target_size": max(1, size // 8), "slice_mode": mode}, **tb)
     add("temper", kind="temper", kw={"tsteps": 2, "num_trees": 3, "numiter": 2, "tstart": 20.0}, **tb)
     add("temper_sliced", kind="temper", kw={"tsteps": 2, "num_trees": 2, "numiter": 2, "tstart": 20.0, "target_size": max(1, size // 4), "slice_mode": "drift"}, **tb)
+    add("repeat_reconf", kind="repeat_after_history", which="subtree_reconfigure", kw={"select": "random", "subtree_search": "random", "subtree_size": 4, "maxiter": 3}, **tb)
+    add("repeat_reconf_bfs", kind="repeat_after_history", which="subtree_reconfigure", kw={"select": "random", "subtree_search": "bfs", "subtree_size": 3, "maxiter": 2}, **tb)
+    add("repeat_forest", kind="repeat_after_history", which="forest", kw={"num_trees": 2, "num_restarts": 2, "subtree_maxiter": 2, "subtree_size": 4}, **tb)
+    add("repeat_anneal", kind="repeat_after_history", which="anneal", also_anneal=True, kw={"tsteps": 2, "numiter": 2, "tstart": 20.0}, **tb)
+    add("repeat_slice", kind="repeat_after_history", which="slice", kw={"target_size": max(1, size // 8), "temperature": 1.0, "max_repeats": 2}, **tb)
     if len(inner) >= 3:
         add("unslice_rand", kind="unslice_rand", pre_sliced=rng.sample(inner, 3), **tb)
     add("rand_equation", kind="gen", fn="rand_equation", args=[8, 3], kw={"n_out": 2, "n_hyper_in": 2, "n_hyper_out": 1})
@@ -143,6 +148,21 @@ def execute(rep, case, tier):
                 pos0 = first_cfg[3].index(cid)
                 pos1 = cfg[3].index(cid)
                 bad.append((cid, f"call '{cid}' ({calls[cid]['kind']}, seed {calls[cid]['seed']}): result under (PYTHONHASHSEED={first_cfg[0]}, perturbation {first_cfg[1]}, position {pos0}) differs from (PYTHONHASHSEED={cfg[0]}, perturbation {cfg[1]}, position {pos1}); errors {r0['error']!r} / {r['error']!r}; touched global random: {r0['touched_random']}", [list(first_cfg[:3]), list(cfg[:3])]))
+                break
+    # history dependence inside one process: the same seeded call twice on the same tree
+    for cid in ids:
+        if calls[cid]["kind"] != "repeat_after_history":
+            continue
+        for cfg, res in runs:
+            r = res[cid]["result"]
+            if r is None:
+                continue
+            rep.mon("repeat_calls_compared")
+            if r["first"] != r["second"]:
+                bad.append((cid, f"call '{cid}' ({calls[cid]['which']}, seed {calls[cid]['seed']}): the same non-inplace seeded call made twice on the same tree (after an in-place history) gave different results", [list(cfg[:3]), list(cfg[:3])]))
+                break
+            if not r["source_unchanged"]:
+                bad.append((cid, f"call '{cid}': a non-inplace seeded call changed the tree it was called on", [list(cfg[:3]), list(cfg[:3])]))
                 break
     # how many calls are actually steered by their seed
     steered = set()
